@@ -383,6 +383,24 @@ func c04Run(c *mc.Ctx) {
 			}
 		}
 	}
+	// part B, directed: down to the deepest level the stack allows (128 descents), then repeats, lateral moves and
+	// one ascent there - with and without a first function, whose excursion has no room left on the stack
+	if c.Mine() {
+		var deep []string
+		for i := 0; i < 128; i++ {
+			deep = append(deep, []string{"1", "2"}[i%2])
+		}
+		deep = append(deep, "5", "6", "5", "7", "3", "5", "1", "5")
+		for _, mode := range []string{"persisted+first", "persisted", "long-lived"} {
+			sig, msg, steps := c04History(mode, deep, visit)
+			c.Count("evaluations", 1)
+			c.Count("engine_histories", 1)
+			c.Count("transitions", int64(steps))
+			if sig != "" {
+				c.Fail(sig, msg, c04Witness{Part: "engine", Mode: mode, Inputs: deep})
+			}
+		}
+	}
 	// part B
 	a := navigatorApp()
 	for _, mode := range []string{"long-lived", "persisted", "persisted+flush", "persisted+first", "persisted+refusingfirst", "long-lived+reset", "persisted+reset"} {
